@@ -50,6 +50,17 @@ func (kf *KnownFile) match(prop, obl string) *KnownFinding {
 		if obl == k.Obligation || strings.HasPrefix(obl, k.Obligation+"#") || strings.HasPrefix(obl, k.Obligation+"@") {
 			return k
 		}
+		// "*#assert#kf-label": the same recorded finding at every function's site of that clause (the label
+		// must itself be a kf- label, so only clauses written as known findings can be matched this way)
+		if strings.HasPrefix(k.Obligation, "*#") && strings.Contains(k.Obligation, "#kf-") {
+			suffix := k.Obligation[1:]
+			if i := strings.Index(obl, suffix); i > 0 {
+				rest := obl[i+len(suffix):]
+				if rest == "" || rest[0] == '#' || rest[0] == '@' {
+					return k
+				}
+			}
+		}
 	}
 	return nil
 }
